@@ -50,6 +50,10 @@ class Printer:
         self.nummacros = 0
 
     def operand(self, o):
+        if o[0] == 'lit' and len(o) > 3 and o[3]:
+            # sign run: o[1] is the denoted value, the printed magnitude has the signs taken off again
+            signs = o[3]
+            return signs + self.operand(['lit', o[1] * (-1 if signs.count('-') % 2 else 1), o[2]])
         if o[0] == 'lit':
             if len(o) > 2 and o[2] == 'macro':
                 name = 'zn' + letters(self.nummacros)
